@@ -114,6 +114,22 @@ Definition rtsp_audio_packer (s : rtsp_st) : rtsp_st * bool :=
 
 (* remux: number of RTP packets handed to onRtpPacket.  [add] =
    RtspRemuxerAddSpsPps2KeyFrameFlag (the key-frame rewrite slices Payload[9:]) *)
+(* RtspRemuxerAddSpsPps2KeyFrameFlag: a key frame is re-packed as sps, pps (vps, sps, pps), first nalu.  [tail] = the
+   first nalu's data as the code takes it (evaluated only where Go evaluates it; both tests are made, the second
+   assignment wins) *)
+Definition join_avcc (l : list bytes) : bytes := flat_map (fun x => be_put 4 (lenN x) ++ x) l.
+Definition rtsp_add_spspps (fx : fixes) (s : rtsp_st) (m : mmsg) (payload : bytes) (tail : res bytes) : res bytes :=
+  let get := fun (o : option bytes) => match o with Some x => x | None => [] end in
+  let* ak := is_avc_key_nalu fx m in
+  let* pa := (if ak && (match rs_pps s with Some _ => true | None => false end) then
+                let* t := tail in Ok (join_avcc [get (rs_sps s); get (rs_pps s); t])
+              else Ok payload) in
+  let* hk := is_hevc_key_nalu fx m in
+  match hk, rs_vps s, rs_pps s with
+  | true, Some v, Some q => let* t := tail in Ok (join_avcc [v; get (rs_sps s); q; t])
+  | _, _, _ => Ok pa
+  end.
+
 Definition s_rtsp_remux9 : N := 119.   (* remux.Rtmp2RtspRemuxer.remux:slice, Payload[9:] *)
 
 Definition rtsp_remux (fx : fixes) (add : bool) (s : rtsp_st) (m : mmsg) : res (rtsp_st * list bytes) :=
@@ -140,21 +156,11 @@ Definition rtsp_remux (fx : fixes) (add : bool) (s : rtsp_st) (m : mmsg) : res (
         let* payload := from s_rtsp_remux p index in
         let* payload2 :=
           (if add then
-             let* ak := is_avc_key_nalu fx m in
-             let* pa := (if ak && (match rs_pps s with Some _ => true | None => false end) then
-                           let* tail := from s_rtsp_remux9 p 9 in
-                           Ok (be_put 4 (lenN (match rs_sps s with Some x => x | None => [] end)) ++ (match rs_sps s with Some x => x | None => [] end)
-                               ++ be_put 4 (lenN (match rs_pps s with Some x => x | None => [] end)) ++ (match rs_pps s with Some x => x | None => [] end)
-                               ++ be_put 4 (lenN tail) ++ tail)
-                         else Ok payload) in
-             let* hk := is_hevc_key_nalu fx m in
-             match hk, rs_vps s, rs_pps s with
-             | true, Some v, Some q =>
-               let* tail := from s_rtsp_remux9 p 9 in
-               let sp := match rs_sps s with Some x => x | None => [] end in
-               Ok (be_put 4 (lenN v) ++ v ++ be_put 4 (lenN sp) ++ sp ++ be_put 4 (lenN q) ++ q ++ be_put 4 (lenN tail) ++ tail)
-             | _, _, _ => Ok pa
-             end
+             if fx_addflag fx then
+               (* after the F-46 repair: the first nalu is payload[4:]; a key frame too short to hold a nalu length goes on unchanged *)
+               if Nat.leb (length payload) 4 then Ok payload
+               else rtsp_add_spspps fx s m payload (Ok (skipn 4 payload))
+             else rtsp_add_spspps fx s m payload (from s_rtsp_remux9 p 9)
            else Ok payload) in
         (* the packer was created for r.videoPt: anything but AvPacketPtAvc packs as hevc *)
         let* n := video_payloads (negb (rs_video_pt s =? pt_avc)) payload2 in
